@@ -13,6 +13,7 @@ import (
 
 	"verif/sim/model"
 	"verif/sim/rt"
+	"verif/sim/simkv"
 	"verif/sim/world"
 )
 
@@ -228,6 +229,12 @@ func genC16(r *rt.Rand, tier string, idx int) *world.Scenario {
 	}
 	sc := &world.Scenario{Prefix: prefix, Seed: r.Uint64(), Engine: "memkv", EtcdCompat: true, Class: "etcd-api-history"}
 	sc.Extra = map[string]int64{"lockstep": 1}
+	if idx%6 == 2 {
+		// one transient iterator error inside a range scan: the scan is retried, the answer must still be etcd's
+		sc.Class = "etcd-api-history+scan-fault"
+		sc.Plan = append(sc.Plan, &simkv.Fault{Op: "scannext", Nth: 1 + r.Intn(60), Effect: "err"})
+		sc.Extra["keep_faults"] = 1
+	}
 	keys := []string{prefix + "/a", prefix + "/a/b", prefix + "/b", prefix + "/pods/ns/p1", prefix + "/pods/ns/p2"}
 	var cl world.Client
 	n := 12 + r.Intn(30)
@@ -510,11 +517,20 @@ func c16Custom(t *testing.T, sc *world.Scenario, out *Outcome) {
 				}
 			case "erange":
 				req := &pb.RangeRequest{Key: []byte(op.Key), RangeEnd: []byte(op.End), Limit: op.Limit, CountOnly: op.API == "count"}
+				firedBefore := w.KV.Fired["scannext:err"]
 				resp, err := sn.Etcd.Range(ctx, req)
 				s.Note("range %d -> %d %v", i, len(resp.GetKvs()), err)
 				if err != nil {
+					if w.KV.Fired["scannext:err"] > firedBefore {
+						// the injected iterator error surfaced: the read may fail, it may not answer wrongly
+						out.probe("range-failed-on-injected-scan-error")
+						continue
+					}
 					out.violate(P, "range-rejected", "range-rejected", "Range(%s,%s) failed: %v", op.Key, op.End, err)
 					continue
+				}
+				if w.KV.Fired["scannext:err"] > firedBefore {
+					out.probe("range-answered-despite-injected-scan-error")
 				}
 				ks := m.rangeKeys(op.Key, op.End)
 				total := int64(len(ks))
